@@ -57,7 +57,7 @@ def gen_case(rng):
     k = rng.randrange(nd)
     lab = sp["labels"][k]
     n = len(lab)
-    c = {"what": what, "a": sp, "k": k, "by_pos": rng.random() < 0.5, "pat": pat}
+    c = {"what": what, "a": sp, "k": k, "by_pos": rng.random() < 0.5, "pat": pat, "neg_pos": rng.random() < 0.3}
     if what == 'sortkey':
         perm = rng.sample(range(n), n)
         c["ranktype"] = rng.choice(['int', 'int', 'frac', 'str'])
@@ -104,7 +104,7 @@ def check(case, ctx):
     k = case["k"]
     d = m.dims[k]
     nd = m.ndim
-    axis = k if case["by_pos"] else d
+    axis = (k - len(sp["dims"]) if case.get("neg_pos") else k) if case["by_pos"] else d
     lab = m.labels[k]
     n = len(lab)
     v = m.values
